@@ -122,6 +122,7 @@ BEHAVIOURS: List[Tuple[str, str]] = [
 
 METHODS: List[str] = []   # filled lazily (needs the library on sys.path)
 PARAMS: List[Any] = params_table()
+PER_SIG = 3   # failing cases re-executed (and reported) per distinct signature
 BEHAVIOUR_SENSITIVE = {"tools/call", "resources/read", CUSTOM_REQ, CUSTOM_NOTE}
 
 
@@ -314,23 +315,27 @@ def run_one(ctl: explorer.Ctl, cfg: Dict[str, Any]) -> Dict[str, Any]:
     def count(k, n=1):
         counters[k] = counters.get(k, 0) + n
 
+    cur = {"p": None}
+
     def bad(sig: Dict[str, Any], msg: str, wire, b):
         key = json.dumps(sig, sort_keys=True)
         e = first.get(key)
         if e is None:
-            first[key] = {"sig": sig, "n": 1,
+            first[key] = {"sig": sig, "n": 1, "p": cur["p"], "b": b,
                           "msg": f"{msg}; input={json.dumps(wire, ensure_ascii=True)} handler-behaviour={BEHAVIOURS[b][0]}"}
         else:
             e["n"] += 1
-        count("violating-cases")
+        count("violating-judgements")
 
     only_p = cfg.get("p")
     only_b = cfg.get("b")
+    single = only_p is not None and only_b is not None
 
     async def block():
         for pi in range(len(PARAMS)):
             if only_p is not None and pi != only_p:
                 continue
+            cur["p"] = pi
             wire = build_input(mi, ii, pi)
             ref_kind, _ = classify(wire)
             for b in range(len(BEHAVIOURS)):
@@ -433,15 +438,23 @@ def run_one(ctl: explorer.Ctl, cfg: Dict[str, Any]) -> Dict[str, Any]:
         raise core.HarnessError(f"block {cfg} did not complete: {status} {val!r}")
     if errors:
         raise core.HarnessError(f"block {cfg}: event loop reported {errors[:2]}")
-    viol = [{"sig": e["sig"], "msg": e["msg"] + f" [first of {e['n']} cases with this signature in block method="
-                                                 f"{m!r} id={_show_id(IDS[ii])}]"} for e in first.values()]
-    for e in first.values():
-        count("sig:" + json.dumps(e["sig"], sort_keys=True), e["n"])
+    if single:
+        # one case (second pass / replay file): the violation is reported here
+        viol = [{"sig": e["sig"], "msg": e["msg"]} for e in first.values()]
+        return {"outcome": ",".join(sorted(outcomes_seen)) or "nothing-judged", "method": m, "id": _show_id(IDS[ii]),
+                "input": build_input(mi, ii, only_p), "behaviour": BEHAVIOURS[only_b][0], "violations": viol,
+                "counters": {"single-cases": 1}}
+    # block: failing cases are handed to the second pass through counters
+    # ("fail|<sig>|m|i|p|b" = first failing case of that signature in this block)
+    for key, e in first.items():
+        count("sig:" + key, e["n"])
+        count(f"fail|{key}|{mi}|{ii}|{e['p']}|{e['b']}")
     return {
         "outcome": ",".join(sorted(outcomes_seen)) or "nothing-judged",
         "method": m,
         "id": _show_id(IDS[ii]),
-        "violations": viol,
+        "failing_signatures": sorted(first),
+        "violations": [],
         "counters": counters,
     }
 
@@ -477,11 +490,28 @@ def run(tier: str, only=None) -> core.Result:
     res = core.Result("C08", "exploration")
     _check_tables()
     ms = _methods()
-    cfgs = [{"m": mi, "i": ii} for mi in range(len(ms)) for ii in range(len(IDS))]
-    out = explorer.explore(RUN, cfgs, audit_mod=16)
+    cfgs = [{"m": mi, "i": ii, "b": b} for mi in range(len(ms)) for ii in range(len(IDS)) for b in range(len(BEHAVIOURS))]
+    out = explorer.explore(RUN, cfgs)
     part = "methods-x-ids-x-params-x-behaviours"
     sched.absorb(res, part, RUN, out, cfgs)
     c = res.parts[part]["counters"]
+    # second pass: per signature, the first PER_SIG failing cases (in enumeration order) are re-executed one by one;
+    # these single-case executions carry the violations (and make the replay files one input each)
+    fails: Dict[str, List[Tuple[int, int, int, int]]] = {}
+    for k in c:
+        if k.startswith("fail|"):
+            head, a, b_, p_, q_ = k.rsplit("|", 4)
+            fails.setdefault(head[5:], []).append((int(a), int(b_), int(p_), int(q_)))
+    singles = [{"m": t[0], "i": t[1], "p": t[2], "b": t[3]} for sig in sorted(fails) for t in sorted(fails[sig])[:PER_SIG]]
+    res.parts[part]["counters"] = c = {k: v for k, v in c.items() if not k.startswith("fail|")}
+    res.coverage.get("parts", {}).get(part, {})["counters"] = c
+    if singles and not out["errors"]:
+        out2 = explorer.explore(RUN, singles)
+        sched.absorb(res, "failing-cases-one-by-one", RUN, out2, singles, min_outcomes=1)
+        p2 = res.parts["failing-cases-one-by-one"]
+        if p2["violating_executions"] != len(singles) and not out2["errors"]:
+            res.harness_errors.append(f"{len(singles) - p2['violating_executions']} of {len(singles)} failing cases did not "
+                                      f"fail when executed alone")
     space = len(ms) * len(IDS) * len(PARAMS) * len(BEHAVIOURS)
     if c.get("cases", 0) != space and not out["errors"]:
         res.harness_errors.append(f"enumeration incomplete: {c.get('cases', 0)} cases run, product is {space}")
@@ -490,7 +520,8 @@ def run(tier: str, only=None) -> core.Result:
     res.coverage["evaluations"] = c.get("cases", 0)
     res.coverage["distinct_nontrivial"] = c.get("judged-distinct", 0)
     res.coverage["judged"] = c.get("judged", 0)
-    res.coverage["violating_cases"] = c.get("violating-cases", 0)
+    res.coverage["violating_judgements"] = c.get("violating-judgements", 0)
+    res.coverage["violating_judgements_by_signature"] = {k[4:]: v for k, v in sorted(c.items()) if k.startswith("sig:")}
     res.coverage["rejected_by_parse_message"] = c.get("rejected-by-parse_message", 0)
     res.coverage["accepted_but_not_jsonrpc_not_judged"] = c.get("accepted-by-parse_message-but-not-jsonrpc:not-judged", 0)
     res.coverage["dimensions"] = {"methods": len(ms), "ids": len(IDS), "params": len(PARAMS),
